@@ -23,6 +23,8 @@ func (r AndRule) String() string {
 	}
 	if len(body) > 1 {
 		return fmt.Sprintf("%s(\n%s\n)", negation, strings.Join(IndentArray(body), "\n∧\n"))
+	} else if len(body) == 0 {
+		return fmt.Sprintf("%s()", negation)
 	} else {
 		return fmt.Sprintf("%s%s", negation, body[0])
 	}
@@ -42,6 +44,8 @@ func (r OrRule) String() string {
 	sort.Strings(body)
 	if len(r.Body) > 1 {
 		return fmt.Sprintf("%s(\n%s\n)", negation, strings.Join(IndentArray(body), "\n∨\n"))
+	} else if len(body) == 0 {
+		return fmt.Sprintf("%s()", negation)
 	} else {
 		return fmt.Sprintf("%s%s", negation, body[0])
 	}
